@@ -21,6 +21,9 @@ MUTANTS = [
     ("M_CommitMax", {}),
     ("M_RetryHolds", {"Classes": '{"P"}', "Strs": '{"a"}', "MaxFails": "1", "Retry": "1"}),
     ("M_DQEmptiesBatch", {"Classes": '{"P"}', "Strs": '{"a"}', "MaxFails": "2", "HasDQ": "TRUE", "MaxId": "2"}),
+    # split: the children fill a batch, the parent (whose Commit the input sees) sits in the next one
+    ("M_SeqCommit", dict(core.SPLIT, MaxId="22")),
+    ("M_TimerFlushesAny", dict(core.SPLIT, MaxId="22")),
 ]
 
 
@@ -38,6 +41,12 @@ def run(ctx, pid=PID, families=(("commit", 120, 600), ("retry", 60, 300)), mutan
       ctx.tlc_expect_ok("Pipeline", "Pipeline_res.cfg", timeout=1500, deadlock=False,
                       overrides={"HasDQ": "TRUE", "MaxFails": "2", "Classes": '{"P"}', "Strs": '{"a"}',
                                  "MaxId": "4" if thorough else "3"}, name="Pipeline/dq-residual")
+      ctx.tlc_expect_ok("Pipeline", "Pipeline_base.cfg", timeout=1500, deadlock=False,
+                      overrides=dict(core.SPLIT, BatchCount="1") if thorough else dict(core.SPLIT), name="Pipeline/split")
+      if thorough:
+          ctx.tlc_expect_ok("Pipeline", "Pipeline_base.cfg", timeout=1500, deadlock=False, overrides=dict(core.SPLIT), name="Pipeline/split-batch2")
+      ctx.tlc_expect_ok("Pipeline", "Pipeline_res.cfg", timeout=1500, deadlock=False,
+                      overrides=dict(core.SPLIT, HasDQ="TRUE", MaxFails="2", MaxId="24" if thorough else "22"), name="Pipeline/split-dq-residual")
     d2 = ctx.tlc("Pipeline", "Pipeline_d2.cfg", timeout=900, deadlock=False,
                  overrides={"HasDQ": "TRUE", "MaxFails": "2", "Classes": '{"P"}', "Strs": '{"a"}'}, name="Pipeline/dq-D2")
     if d2.ok:
@@ -59,7 +68,7 @@ def run(ctx, pid=PID, families=(("commit", 120, 600), ("retry", 60, 300)), mutan
         run_no += 1
     for ov in ({}, {"BatchCount": "2"}, {"HasDQ": "TRUE", "MaxFails": "2", "Classes": '{"P"}'},
                {"Classes": '{"P", "H", "C"}', "Strs": '{"a"}', "MaxId": "4"},
-               {"Capacity": "1", "Classes": '{"P", "D", "R"}'}):
+               {"Capacity": "1", "Classes": '{"P", "D", "R"}'}, dict(core.SPLIT), dict(core.SPLIT, BatchCount="1", Classes='{"P", "S", "H"}')):
         g = []
         for lines, steps in core.simulated_schedules(ctx, 60 if thorough else 12, ov):
             scen.append(core.scripted(run_no, "sim-%d" % run_no, lines, steps, core.consts_of(ov)))
